@@ -96,6 +96,15 @@ def check(ctx, rep, upto=None):
         return
     cellf = [f['name'] for f in fields if f['ty'].startswith('core::cell::UnsafeCell<')]
     statef = [f['name'] for f in fields if f['ty'].startswith('core::sync::atomic::Atomic<')]
+    state_ty = None
+    if not statef:
+        # the atomic may be wrapped in a private newtype / struct with the protocol steps as methods
+        from .qmodel import nested_fields
+        for f in fields:
+            h = type_head(f['ty'])
+            if h in mac.adts and h != H and any(x['ty'].startswith('core::sync::atomic::Atomic<') for x in nested_fields(mac, h)):
+                statef.append(f['name'])
+                state_ty = h
     if len(cellf) != 1 or len(statef) != 1:
         rep.anchor_lost('R0', 'cell/state fields of SingletonHolder (%s/%s)' % (cellf, statef))
         return
@@ -117,6 +126,9 @@ def check(ctx, rep, upto=None):
     if len(rts) == 1 and list(rts)[0][0] == 'adt':
         fs = dict(list(rts)[0][3])
         st, cv = fs.get(statef), fs.get(cellf)
+        if st is not None and not term_callee_is(st, AT + 'new'):
+            inner_new = [y for y in walk(st) if term_callee_is(y, AT + 'new')]
+            st = inner_new[0] if len(inner_new) == 1 else st
         if st is not None and term_callee_is(st, AT + 'new') and evalc(mac, st[2][0])[0] == 'const':
             E = evalc(mac, st[2][0])[2]
         oknew = E is not None and cv is not None and term_callee_is(cv, 'core::cell::UnsafeCell::new') and cv[2][0][0] == 'adt' and cv[2][0][2] == 'None'
@@ -173,7 +185,13 @@ def check(ctx, rep, upto=None):
                 rep.ob('R3', 'get/none-until-complete', okn, m['get'].where(), 'any other state => None, cell untouched' if okn else 'get() can return something / touch the cell before the state is COMPLETE')
         rts = ret_terms(Tg, [0])
         somes = [r for r in rts if not (r[0] == 'adt' and r[2] == 'None')]
-        okc = all(term_callee_is(r, '<core::option::Option as core::clone::Clone>::clone') for r in somes) and bool(somes)
+        def clone_of_cell(r):
+            # Option<Arc<T>>::clone(&*cell)  or  Some(Arc::clone(<view into *cell>))
+            if r[0] == 'adt' and r[2] == 'Some' and r[3]:
+                r = norm(r[3][0][1])
+            return r[0] == 'call' and isinstance(r[1], str) and r[1].endswith('core::clone::Clone>::clone') and len(r[2]) == 1 and \
+                any(cell_ptr(y, cellf) for y in walk(r[2][0]))
+        okc = all(clone_of_cell(r) for r in somes) and bool(somes)
         rep.ob('R3', 'get/returns-clone-of-stored', okc, m['get'].where(), 'returns a clone of the stored Option<Arc<T>> (always the same instance)')
     # is_set agrees with get's test
     ib = inl(mac, m['is_set'])
@@ -326,6 +344,15 @@ def check(ctx, rep, upto=None):
         nbodies += 1
         if b.path in allowed:
             continue
+        if state_ty is not None:
+            if b.impl_self and type_head(b.impl_self) == state_ty:
+                continue        # the wrapper's own methods: judged where they are used (inlined into set/get/is_set)
+            if b.def_kind not in ('Const', 'Static', 'AnonConst'):
+                for bi, t in b.calls():
+                    rb = mac.bodies.get(t.get('resolved') or '')
+                    if rb is not None and rb.impl_self and type_head(rb.impl_self) == state_ty and rb.impl_trait is None and \
+                            type_head(rb.locals[0]) != state_ty:
+                        offenders.append((b, bi, 'drives the state through %s' % rb.short()))
         T = None
         for bi, t in b.calls():
             k = strip_generics(t.get('callee_full', ''))
@@ -364,4 +391,10 @@ def check(ctx, rep, upto=None):
            'twin outcome: bad compiles=%s codes=%s ; good compiles=%s (%s)' % (okb, codes_b, okg2, (msgs_g or [err_g[-200:]])[:1]))
     # holder static is the only instance used by the global API
     st = [c for c in mac.consts.values() if 'Static' in c['kind']]
-    rep.ob('R4', 'one-global-holder', len(st) == 1 and H in st[0]['ty'], '', 'exactly one static holder: %s' % [c['path'] for c in st])
+
+    def holds_holder(ty, depth=0):
+        if H in ty:
+            return True
+        h = type_head(ty)
+        return depth < 2 and h in mac.adts and any(holds_holder(f['ty'], depth + 1) for f in (adt_fields(mac, h) or []))
+    rep.ob('R4', 'one-global-holder', len(st) == 1 and holds_holder(st[0]['ty']), '', 'exactly one static (holding the) holder: %s' % [c['path'] for c in st])
